@@ -1,5 +1,6 @@
 CONSTANTS
   MaxConn = @MAXCONN@
+  HopCards = @CARDS@
 INIT Init
 NEXT Next
 INVARIANTS MSatisfiesP E2EKept Emit
